@@ -22,6 +22,7 @@ def exGeF (f : Float32) (q : Nat) : Bool := f ≥ Float32.ofNat q
 structure Sess where
   model : Option PQueue := none
   spec  : Option (List Nat) := none
+  scap  : Nat := 0               -- spec side: the capacity (push reports CC_ERR_MAX_CAPACITY at the limit)
   mem   : Mem := {}
   exp   : Float32 := 2
   modc  : Bool := false          -- comparator: false = numeric, true = v % 10
@@ -82,7 +83,7 @@ def step (s : Sess) (c : Cmd) : Sess × String × String :=
     let m := if absurd && c.sched.isEmpty then s.mem.begin [false, true] else m
     let (st, r, m) := PQueue.new cap (exGeF f) m
     let m := if absurd && c.sched.isEmpty then { m with nrefused := 0 } else m
-    let s' : Sess := { model := r, spec := sp, mem := m, exp := f, modc }
+    let s' : Sess := { model := r, spec := sp, scap := cap, mem := m, exp := f, modc }
     (s', lineS (fmtStat sst) s', lineM (fmtStat st) s' none)
   | _ =>
   match s.model, s.spec with
@@ -93,8 +94,16 @@ def step (s : Sess) (c : Cmd) : Sess × String × String :=
     | "push" =>
       let x := c.arg 0
       let (st, r', m) := PQueue.push cmp grow r x m
-      let (sst, f') := if c.fired > 0 then (Stat.errAlloc, f) else (Stat.ok, x :: f)
-      let s' : Sess := { s with model := some r', spec := some f', mem := m }
+      -- spec: a full queue grows by the configured law; beyond the representable capacities the
+      -- push is rejected with CC_ERR_MAX_CAPACITY; a refused allocation gives CC_ERR_ALLOC
+      let nc := let g := grow s.scap
+                if g ≤ s.scap then (if s.scap < Gen.CC_MAX_ELEMENTS / 2 then s.scap + 1 else Gen.CC_MAX_ELEMENTS) else g
+      let full := f.length ≥ s.scap
+      let (sst, f', scap) :=
+        if full && (s.scap = Gen.CC_MAX_ELEMENTS || nc > Gen.CC_MAX_ELEMENTS / PQueue.ptrSize) then (Stat.errMaxCapacity, f, s.scap)
+        else if c.fired > 0 then (Stat.errAlloc, f, s.scap)
+        else (Stat.ok, x :: f, if full then nc else s.scap)
+      let s' : Sess := { s with model := some r', spec := some f', scap, mem := m }
       (s', lineS (fmtStat sst) s', lineM (fmtStat st) s' none)
     | "top" =>
       let (st, out, m) := r.top m
